@@ -183,6 +183,9 @@ fn describe(cs: &CrystalSetup, lp: f64, ls: f64, ths: f64, phs: f64, pp: &Period
 fn gen_poling(r: &mut Rng) -> PeriodicPoling {
   match r.below(3) {
     0 => PeriodicPoling::Off,
+    // periods over many decades (the closing vector points backward for tiny positive periods: then only Δk's
+    // definition and the K tie are checked)
+    1 => pp_on(r.log_range(3e-8, 1.0), r.coin()),
     _ => pp_on(r.log_range(0.3e-6, 1e-3), r.coin()),
   }
 }
@@ -843,10 +846,11 @@ pub fn run(ctx: &mut Ctx) {
   for _ in 0..ctx.n {
     let crystal = ctx.rng.pick(&cr).clone();
     let pm = *ctx.rng.pick(&PMS);
-    let ctheta = match ctx.rng.below(8) {
+    let ctheta = match ctx.rng.below(10) {
       0 => 0.0,
       1 => std::f64::consts::FRAC_PI_2,
       2 => ctx.rng.range(-std::f64::consts::PI, std::f64::consts::PI),
+      3 => *ctx.rng.pick(&[std::f64::consts::PI, -std::f64::consts::PI, -0.0, -std::f64::consts::FRAC_PI_2]),
       _ => ctx.rng.range(0.0, std::f64::consts::FRAC_PI_2),
     };
     let cphi = match ctx.rng.below(6) {
@@ -856,13 +860,18 @@ pub fn run(ctx: &mut Ctx) {
     let celsius = ctx.rng.range(0.0, 100.0);
     let length = ctx.rng.range(1e-3, 30e-3);
     let (lp, ls) = gen_wavelengths(&mut ctx.rng, &crystal);
-    let ths = match ctx.rng.below(6) {
+    let ths = match ctx.rng.below(8) {
       0 => 0.0,
-      1 => ctx.rng.log_range(1e-6, 0.3),
+      1 => ctx.rng.log_range(1e-12, 0.3),
+      2 => 0.3,
       _ => ctx.rng.range(0.0, 0.3),
-    } * if ctx.rng.below(5) == 0 { -1.0 } else { 1.0 };
-    let phs = match ctx.rng.below(6) {
+    } * if ctx.rng.below(5) == 0 { -1.0 } else { 1.0 }; // (−0.0 included)
+    let phs = match ctx.rng.below(10) {
       0 => 0.0,
+      1 => std::f64::consts::PI,
+      2 => TAU,
+      3 => -std::f64::consts::PI,
+      4 => 1.5 * std::f64::consts::PI,
       _ => ctx.rng.range(0.0, TAU),
     };
     let pp = gen_poling(&mut ctx.rng);
